@@ -2414,6 +2414,13 @@ make_NumpyArray(const py::handle& m, const std::string& name) {
                 pybind11::make_tuple(py::cast<ssize_t>(self.itemsize())));
     })
     .def("to_jax", [name](const ak::NumpyArray& self) -> py::object {
+      for (auto stride : self.strides()) {
+        if (stride % self.itemsize() != 0) {
+          throw std::invalid_argument(
+            std::string("NumpyArray strides must be multiples of the itemsize to be viewed through DLPack")
+            + FILENAME(__LINE__));
+        }
+      }
       DLManagedTensor* dlm_tensor = new DLManagedTensor;
 
       dlm_tensor->dl_tensor.data = self.ptr().get();
